@@ -110,3 +110,56 @@ theorem strSpec_escaped (w : Nat) (s : List Nat) : StrSpec (jsonDeps w) (escapeJ
     · simp [he] at hinv ⊢; exact hinv.2
 
 end Qentem.Json
+
+namespace Qentem.Json
+open Qentem.Unicode
+
+theorem flatMap_out_of_allPlain (w : Nat) (ts : List Tok) (h : ts.all Tok.isPlainTok = true) :
+    ts.flatMap (Tok.out w) = ts.flatMap Tok.src := by
+  induction ts with
+  | nil => rfl
+  | cons t r ih =>
+    simp only [List.all_cons, Bool.and_eq_true] at h
+    cases t <;> simp_all [Tok.isPlainTok, Tok.out, Tok.src]
+
+/-- **Every RFC 8259 string body.** A body made of any sequence of string tokens — plain units of
+any width, the eight short escapes, `\uXXXX` (either hex case, `\U` too), surrogate pairs — is read
+as the concatenation of what the tokens denote (`Tok.out`: the unit itself, the escaped control, the
+UTF-8/16/32 encoding of the escaped code point). Together with C20's theorems about `Tok.out` this
+is the string clause of C06. -/
+theorem strSpec_tokens (w : Nat) (ts : List Tok) (hok : ∀ t ∈ ts, t.ok = true) :
+    StrSpec (jsonDeps w) (ts.flatMap Tok.src) (ts.flatMap (Tok.out w)) := by
+  intro c o hat
+  obtain ⟨t, ht⟩ := hat
+  have hlen : c.size - o ≤ (c.toList.drop o).length := by simp
+  have hB := unEscapeA_eq_B w (c.toList.drop o) (c.size - o) [] hlen
+  have htake : (c.toList.drop o).take (c.size - o) = ts.flatMap Tok.src ++ 34 :: t := by
+    rw [List.take_of_length_le (by simp)]; rw [← ht]; simp
+  have hs := unEscapeB_string w ts hok t
+  show ∃ stream, unEscapeDep w c o (c.size - o) = _ ∧ _
+  unfold unEscapeDep
+  rw [hB, htake, hs]
+  refine ⟨_, rfl, ?_⟩
+  unfold stringOf
+  have hslice : (c.extract o (o + ((ts.flatMap Tok.src).length + 1 - 1))).toList = ts.flatMap Tok.src := by
+    have : (c.extract o (o + ((ts.flatMap Tok.src).length + 1 - 1))).toList = (c.toList.drop o).take (ts.flatMap Tok.src).length := by
+      simp [Array.toList_extract, List.take_drop]
+    rw [this, ← ht]; simp
+  rw [hslice]
+  cases hall : ts.all Tok.isPlainTok with
+  | true => simp [flatMap_out_of_allPlain w ts hall]
+  | false =>
+    have hne : ts.flatMap (Tok.out w) ≠ [] := by
+      intro he
+      have : ∃ t ∈ ts, t.isPlainTok = false := by
+        simpa using hall
+      obtain ⟨t0, ht0, _⟩ := this
+      have := Tok.out_ne_nil w t0 (hok t0 ht0)
+      have hmem : ∀ x ∈ t0.out w, x ∈ ts.flatMap (Tok.out w) := fun x hx => List.mem_flatMap.2 ⟨t0, ht0, hx⟩
+      rw [he] at hmem
+      cases hcase : t0.out w with
+      | nil => exact this hcase
+      | cons a b => exact absurd (hmem a (by simp [hcase])) (by simp)
+    simp [hne]
+
+end Qentem.Json
